@@ -72,6 +72,9 @@ def product_helper(a, b, out, func):
     res = func._implementation(np.asarray(a), np.asarray(b), out=np.asarray(out))
     if getattr(out, "units", None) is not None:
         out.units = prod_units
+    if np.ndim(res) == 0:
+        # a 0-d out buffer: NumPy hands back a scalar, which cannot be viewed as an array
+        return unyt_quantity(res, prod_units, bypass_validation=True)
     return unyt_array(res, prod_units, bypass_validation=True)
 
 
